@@ -579,9 +579,13 @@ def _match_semantics(ctx, psc: ClassInfo, match: FuncInfo) -> bool:
                     want = 'STS' if x in sset else 'MTS' if x in mset else \
                         'STS' if ks[0] == 'wild' and ks[1] in ('ALL', 'REMAINING') else \
                         'MTS' if km[0] == 'wild' and km[1] in ('ALL', 'REMAINING') else None
+                    present = any(k_ == x for k_ in res)
                     got = next((v for k_, v in res.items() if k_ == x), None)
                     got_txt = got.member if isinstance(got, EnumV) and got.cls is rs else None if got is None else repr(got)
-                    if got_txt != want:
+                    if present and got is None:
+                        bad_first.append(f'{sc}: port `{x.name}` is entered in the result with the value None instead of being left out: '
+                                         f'it counts as configured although no semantics was selected for it')
+                    elif got_txt != want:
                         bad_first.append(f'{sc}: port `{x.name}` gets {got_txt}, the configuration says {want}')
                 extra = [k_ for k_ in res if k_ not in (p, q)]
                 if extra:
